@@ -1,4 +1,177 @@
-import ZckModel.Writer
+/-
+C16 — Chunking is deterministic, content-defined and local.
+Theorems about the chunker model (`Writer.lean`: automatic branch of `zck_write` with the buzhash
+state, `zck_end_chunk`), for EVERY configuration, content and segmentation.  The model is a
+function (no clock, pid or temp-file name can reach the output): determinism is by construction.
+That the real `zck_write`'s batching (`comp_write` of whole runs) is equivalent to this per-byte
+model is what the correspondence runs check (same content, different segmentations ⇒ identical
+files; chunk sizes = the model's).
+-/
+import ZckModel.WriterLemmas
 import ZckModel.Pred.Write
+
 namespace Zck.C16
+open Zck Zck.Writer
+
+/-- **segmentation independence (automatic mode)**: delivering content through any sequence of
+write calls is the same as one write of the concatenation — same finished chunks, same chunk
+under construction, same rolling-hash state -/
+theorem segmentation_indep (cfg : Cfg) (hm : cfg.manual = false) :
+    ∀ (segs : List Bytes) (st : St), run cfg st (segs.map Op.write) = writeAuto cfg st segs.flatten
+  | [], st => by simp [run, writeAuto]
+  | s :: segs, st => by
+    simp only [List.map_cons, run, List.flatten_cons, writeAuto_append]
+    have h1 : applyOp cfg st (Op.write s) = writeAuto cfg st s := by
+      unfold applyOp
+      by_cases he : s.isEmpty = true
+      · have : s = [] := by simpa using he
+        subst this; simp [writeAuto]
+      · simp [he, hm]
+    rw [h1]
+    cases writeAuto cfg st s with
+    | none => rfl
+    | some st' => exact segmentation_indep cfg hm segs st'
+
+/-- two segmentations of the same content produce the same chunks -/
+theorem same_content_same_chunks (cfg : Cfg) (hm : cfg.manual = false) (s1 s2 : List Bytes)
+    (h : s1.flatten = s2.flatten) :
+    closeChunks cfg (s1.map Op.write) = closeChunks cfg (s2.map Op.write) := by
+  unfold closeChunks
+  have hm' : cfg.norm.manual = false := hm
+  rw [segmentation_indep cfg.norm hm', segmentation_indep cfg.norm hm', h]
+
+/-- **prefix locality**: the chunks finished while the shared prefix `p` is being written are
+finished chunks of the whole output, whatever follows — and they account for all of `p` except
+the chunk still under construction at its end.  A chunk is finished when the byte FOLLOWING it is
+examined, so these are exactly the chunks that end strictly before the first differing byte. -/
+theorem prefix_local (cfg : Cfg) (p x : Bytes) (sp sx : St)
+    (hp : writeAuto cfg {} p = some sp) (hx : writeAuto cfg {} (p ++ x) = some sx) :
+    (∃ more, sx.chunks = sp.chunks ++ more) ∧ sp.chunks.flatten ++ sp.cur = p := by
+  rw [writeAuto_append, hp] at hx
+  simp only [Option.bind_some] at hx
+  rw [writeAuto_acc] at hx
+  refine ⟨?_, ?_⟩
+  · cases h : writeAuto cfg { sp with chunks := [] } x with
+    | none => rw [h] at hx; cases hx
+    | some t =>
+      rw [h] at hx
+      simp only [Option.map_some, Option.some.injEq] at hx
+      exact ⟨t.chunks, by rw [← hx]⟩
+  · have := (writeAuto_content cfg p {} sp wf_init hp).1
+    simpa [content, St.cur] using this
+
+/-- two outputs that share the prefix `p` agree on every chunk finished within `p` -/
+theorem shared_prefix_chunks (cfg : Cfg) (p x y : Bytes) (sp sx sy : St)
+    (hp : writeAuto cfg {} p = some sp) (hx : writeAuto cfg {} (p ++ x) = some sx)
+    (hy : writeAuto cfg {} (p ++ y) = some sy) :
+    ∃ mx my, sx.chunks = sp.chunks ++ mx ∧ sy.chunks = sp.chunks ++ my :=
+  let ⟨⟨mx, h1⟩, _⟩ := prefix_local cfg p x sp sx hp hx
+  let ⟨⟨my, h2⟩, _⟩ := prefix_local cfg p y sp sy hp hy
+  ⟨mx, my, h1, h2⟩
+
+/-- **suffix resynchronisation**: two writers whose chunk under construction and rolling-hash
+state agree (in particular: both at the start of a chunk) finish exactly the same further chunks
+on the same further bytes, whatever they produced before -/
+theorem suffix_resync (cfg : Cfg) (s : Bytes) (st1 st2 a b : St)
+    (hcore : st1.curR = st2.curR ∧ st1.curLen = st2.curLen ∧ st1.buz = st2.buz)
+    (h1 : writeAuto cfg st1 s = some a) (h2 : writeAuto cfg st2 s = some b) :
+    ∃ m, a.chunks = st1.chunks ++ m ∧ b.chunks = st2.chunks ++ m ∧
+      a.curR = b.curR ∧ a.curLen = b.curLen ∧ a.buz = b.buz := by
+  rw [writeAuto_acc] at h1 h2
+  have hc : ({ st1 with chunks := [] } : St) = { st2 with chunks := [] } := by
+    obtain ⟨e1, e2, e3⟩ := hcore
+    cases st1; cases st2; simp_all
+  rw [hc] at h1
+  cases h : writeAuto cfg { st2 with chunks := [] } s with
+  | none => rw [h] at h1; cases h1
+  | some t =>
+    rw [h] at h1 h2
+    simp only [Option.map_some, Option.some.injEq] at h1 h2
+    exact ⟨t.chunks, by rw [← h1], by rw [← h2], by rw [← h1, ← h2], by rw [← h1, ← h2], by rw [← h1, ← h2]⟩
+
+/-! ### size bounds -/
+
+/-- every chunk finished by the automatic branch while one byte is examined has a size within
+the effective minimum and maximum, and the chunk under construction never exceeds the maximum -/
+theorem feedAuto_bounds (cfg : Cfg) (hmin : cfg.chunkMin ≤ cfg.autoMin) (hpos : 0 < cfg.autoMax) :
+    ∀ (fuel : Nat) (st st' : St) (b : UInt8), Wf st → st.curLen ≤ cfg.autoMax →
+      feedAuto cfg fuel st b = some st' →
+      st'.curLen ≤ cfg.autoMax ∧
+      ∃ m, st'.chunks = st.chunks ++ m ∧ ∀ c ∈ m, cfg.autoMin ≤ c.length ∧ c.length ≤ cfg.autoMax
+  | 0, st, st', b, _, _, h => by simp [feedAuto] at h
+  | fuel + 1, st, st', b, hw, hle, h => by
+    unfold feedAuto at h
+    simp only at h
+    split at h
+    · split at h
+      · exact feedAuto_bounds cfg hmin hpos fuel { st with buz := (buzUpdate cfg.W st.buz b).1 } st' b hw hle h
+      · rename_i hge
+        -- the chunk is ended (not refused: it has at least autoMin >= chunkMin bytes)
+        have hw' := endChunk_wf cfg { st with buz := (buzUpdate cfg.W st.buz b).1 } false hw
+        rcases endChunk_chunks cfg { st with buz := (buzUpdate cfg.W st.buz b).1 } false with hc | ⟨hc, hl, _, _, _⟩
+        · -- nothing appended (only possible when nothing had to be ended)
+          have hle' : (endChunk cfg { st with buz := (buzUpdate cfg.W st.buz b).1 } false).curLen ≤ cfg.autoMax := by
+            unfold endChunk
+            split
+            · exact hle
+            · split
+              · exact hle
+              · simp
+          obtain ⟨r1, m, r2, r3⟩ := feedAuto_bounds cfg hmin hpos fuel _ st' b hw' hle' h
+          exact ⟨r1, m, by rw [r2, hc], r3⟩
+        · have hle' : (endChunk cfg { st with buz := (buzUpdate cfg.W st.buz b).1 } false).curLen ≤ cfg.autoMax := by
+            rw [hl]; omega
+          obtain ⟨r1, m, r2, r3⟩ := feedAuto_bounds cfg hmin hpos fuel _ st' b hw' hle' h
+          refine ⟨r1, [st.cur] ++ m, by rw [r2, hc]; simp [St.cur], ?_⟩
+          intro c hcm
+          simp only [List.singleton_append, List.mem_cons] at hcm
+          rcases hcm with rfl | hcm
+          · have hl2 : st.cur.length = st.curLen := by rw [cur_length]; exact hw.symm
+            rw [hl2]
+            exact ⟨by omega, hle⟩
+          · exact r3 c hcm
+    · rename_i hno
+      simp only [Option.some.injEq] at h
+      subst h
+      simp only [not_or, Nat.not_le] at hno
+      exact ⟨by simp only; omega, [], by simp, by simp⟩
+
+/-- **size bounds (automatic mode)**: every chunk finished while content is written
+automatically has `auto_min ≤ size ≤ auto_max`; only the final chunk, forced out by
+`zck_close`, may be smaller -/
+theorem size_bounds (cfg : Cfg) (hmin : cfg.chunkMin ≤ cfg.autoMin) (hpos : 0 < cfg.autoMax) :
+    ∀ (bs : Bytes) (st st' : St), Wf st → st.curLen ≤ cfg.autoMax → writeAuto cfg st bs = some st' →
+      st'.curLen ≤ cfg.autoMax ∧ Wf st' ∧
+      ∃ m, st'.chunks = st.chunks ++ m ∧ ∀ c ∈ m, cfg.autoMin ≤ c.length ∧ c.length ≤ cfg.autoMax
+  | [], st, st', hw, hle, h => by
+    simp only [writeAuto, Option.some.injEq] at h; subst h
+    exact ⟨hle, hw, [], by simp, by simp⟩
+  | x :: bs, st, st', hw, hle, h => by
+    simp only [writeAuto] at h
+    cases hf : feedAuto cfg (refeedFuel cfg) st x with
+    | none => rw [hf] at h; cases h
+    | some s =>
+      rw [hf] at h
+      obtain ⟨a1, m1, a2, a3⟩ := feedAuto_bounds cfg hmin hpos _ st s x hw hle hf
+      have ws := (feedAuto_content cfg _ st s x hw hf).2
+      obtain ⟨b1, b2, m2, b3, b4⟩ := size_bounds cfg hmin hpos bs s st' ws a1 h
+      refine ⟨b1, b2, m1 ++ m2, by rw [b3, a2, List.append_assoc], ?_⟩
+      intro c hc
+      rcases List.mem_append.mp hc with h' | h'
+      · exact a3 c h'
+      · exact b4 c h'
+
+/-- the effective limits `comp_init` computes are consistent for every configured minimum and
+maximum with `min ≤ max` (what the option setters enforce): `min ≤ auto_min ≤ auto_max ≤ max` -/
+theorem limits_consistent (cfg : Cfg) (h : cfg.chunkMin ≤ cfg.chunkMax) :
+    cfg.chunkMin ≤ cfg.autoMin ∧ cfg.autoMin ≤ cfg.autoMax ∧ cfg.autoMax ≤ cfg.chunkMax := by
+  unfold Cfg.autoMin Cfg.autoMax
+  simp only
+  refine ⟨?_, ?_, ?_⟩ <;> (repeat' split) <;> omega
+
+/-! Non-vacuity (tests): the generated defaults give the documented effective limits -/
+example : (Cfg.norm { manual := false, chunkMin := 0, chunkMax := 0 }).autoMin = 8192 ∧
+          (Cfg.norm { manual := false, chunkMin := 0, chunkMax := 0 }).autoMax = 131072 := by decide
+example : (Cfg.norm { manual := false, chunkMin := 1, chunkMax := 5000 }).autoMin = 5000 := by decide
+
 end Zck.C16
